@@ -65,6 +65,10 @@ func c20Universes(level int) []c20Universe {
 	us = append(us, mk("shared-def/flat", flat, [4]J{{"s": ref("d.json#/$defs/Shared")}, {"s": ref("d.json#/$defs/Shared"), "l": J{"type": "array", "items": ref("d.json#/$defs/Shared")}}, {"c1": str}, {"d1": in}},
 		[4]J{nil, nil, nil, {"Shared": J{"type": "object", "properties": J{"k": str}, "required": A{"k"}}, "Unused": J{"type": "object", "properties": J{"u": in}}}}, noExtra))
 	us = append(us, mk("allof-ref/flat", flat, [4]J{{"c": J{"allOf": A{ref("b.json"), J{"type": "object", "properties": J{"extra": in}}}}}, {"b1": in, "b2": str}, {"c1": str}, {"d1": in}}, [4]J{}, [4][]any{nil, {"required", A{"b1"}}, nil, nil}))
+	// a property whose type lives in another document and that carries an object default of its own (the default is written in the
+	// referring document, its literal names a type of the other one)
+	us = append(us, mk("object-default-across-files/flat", flat, [4]J{{"a1": str, "d": J{"$ref": "b.json#/$defs/Thing", "default": J{"n": 1}}}, {"b1": in, "t": ref("#/$defs/Thing")}, {"c1": str}, {"d1": in}},
+		[4]J{nil, {"Thing": J{"type": "object", "properties": J{"n": in}, "required": A{"n"}}}, nil, nil}, noExtra))
 	us = append(us, mk("chain/nested", nested, [4]J{{"a1": str, "b": ref("sub/b.json")}, {"b1": in, "c": ref("deep/c.json")}, {"c1": str, "d": ref("../../other/d.json")}, {"d1": in}}, ownDefs, noExtra))
 	us = append(us, mk("diamond/nested", nested, [4]J{{"b": ref("./sub/b.json"), "c": ref("sub/deep/c.json")}, {"b1": in, "d": ref("../other/d.json")}, {"c1": str, "d": ref("../../other/d.json")}, {"d1": in}}, [4]J{}, noExtra))
 	// same base name in two directories: x/main.json -> ./common.json (x/common.json), y/main.json -> ./common.json (y/common.json)
